@@ -39,15 +39,15 @@ Theorem C17_load_invariant : forall (xref_at : bytes -> N -> res (list section *
 Proof. exact load_prefix. Qed.
 Print Assumptions C17_load_invariant.
 
-(** Resolving any object number (direct, compressed, free, missing): the same outcome, absolute file
-    ranges inside the value moved by |p| — for tables whose offsets do not make `start_offset + pos`
-    overflow (see C17_full_statement / C17_resolve_overflow_refuted). *)
+(** Resolving any object number (direct, compressed, free, missing) through any cross-reference table:
+    the same outcome, absolute file ranges inside the value moved by |p|.  No exclusion is left:
+    `start_offset + pos` is a checked addition now (see C17_resolve_overflow_refuted_before_fix). *)
 Theorem C17_resolve_invariant : forall (value : Type) (obj_at : bytes -> N -> res value)
     (member : bytes -> value -> N -> res value) (shift : N -> value -> value) (p f : bytes),
   (forall pos, obj_at (p ++ f) (lenN p + pos) = rmap (shift (lenN p)) (obj_at f pos)) ->
   (forall v i, member (p ++ f) (shift (lenN p) v) i = rmap (shift (lenN p)) (member f v i)) ->
-  lenN (p ++ f) < usize_max -> lenN p + lenN xr_header <= xr_header_window ->
-  forall t, offsets_small p t -> forall fuel id,
+  lenN (p ++ f) < usize_max ->
+  forall t fuel id,
   resolve_ref value obj_at member fuel (p ++ f) (lenN p) t id
   = rmap (shift (lenN p)) (resolve_ref value obj_at member fuel f 0 t id).
 Proof. exact resolve_prefix. Qed.
@@ -63,30 +63,40 @@ Theorem C17_scan_invariant : forall (value : Type) (scan_slice : bytes -> bytes 
 Proof. exact scan_prefix. Qed.
 Print Assumptions C17_scan_invariant.
 
-(** The statement without the exclusion is false of the faithful model: *)
+(** The full statement (every table, every object number; the only premise besides the parser oracles is
+    that the prefixed file is an addressable slice, |p ++ f| < 2^64) — proved since the repair of C17-b. *)
 Definition C17_full_statement : Prop :=
   forall (value : Type) (obj_at : bytes -> N -> res value) (member : bytes -> value -> N -> res value)
     (shift : N -> value -> value) (p f : bytes),
   (forall pos, obj_at (p ++ f) (lenN p + pos) = rmap (shift (lenN p)) (obj_at f pos)) ->
   (forall v i, member (p ++ f) (shift (lenN p) v) i = rmap (shift (lenN p)) (member f v i)) ->
+  lenN (p ++ f) < usize_max ->
   forall t fuel id,
   resolve_ref value obj_at member fuel (p ++ f) (lenN p) t id
   = rmap (shift (lenN p)) (resolve_ref value obj_at member fuel f 0 t id).
 
-Theorem C17_resolve_overflow_refuted :
-  exists (t : table) (p f : bytes) (id : N),
-    resolve_ref N (fun _ _ => Ok 0) (fun _ _ _ => Ok 0) 2 f 0 t id = Err E_BOUNDS /\
-    resolve_ref N (fun _ _ => Ok 0) (fun _ _ _ => Ok 0) 2 (p ++ f) (lenN p) t id = Panic 204.
-Proof. exact resolve_prefix_overflow_refuted. Qed.
-Print Assumptions C17_resolve_overflow_refuted.
+Theorem C17_full_statement_proved : C17_full_statement.
+Proof. exact resolve_prefix. Qed.
+Print Assumptions C17_full_statement_proved.
 
-Theorem C17_full_statement_refuted : ~ C17_full_statement.
-Proof.
-  intros H. destruct resolve_prefix_overflow_refuted as [t [p [f [id [H1 H2]]]]].
-  specialize (H N (fun _ _ => Ok 0) (fun _ _ _ => Ok 0) (fun _ v => v) p f (fun _ => eq_refl) (fun _ _ => eq_refl) t 2%nat id).
-  rewrite H1, H2 in H. discriminate.
-Qed.
-Print Assumptions C17_full_statement_refuted.
+(** resolve_ref itself has no panic site left: with parser oracles that do not panic it does not panic. *)
+Theorem C17_resolve_no_panic : forall (value : Type) (obj_at : bytes -> N -> res value) (member : bytes -> value -> N -> res value),
+  (forall fl pos, no_panic (obj_at fl pos) \/ obj_at fl pos = OutOfFuel) ->
+  (forall fl v i, no_panic (member fl v i) \/ member fl v i = OutOfFuel) ->
+  forall fuel file start t id,
+  match resolve_ref value obj_at member fuel file start t id with Panic _ => False | _ => True end.
+Proof. exact resolve_ref_no_panic. Qed.
+Print Assumptions C17_resolve_no_panic.
+
+(** Before the repair (file.rs:247, unchecked `start_offset + pos`): offset 2^64-1 and one byte before the
+    header — error value without the prefix, panic with it; the repaired function reports the same error. *)
+Theorem C17_resolve_overflow_refuted_before_fix :
+  exists (t : table) (p f : bytes) (id : N),
+    resolve_ref_old N (fun _ _ => Ok 0) (fun _ _ _ => Ok 0) 2 f 0 t id = Err E_BOUNDS /\
+    resolve_ref_old N (fun _ _ => Ok 0) (fun _ _ _ => Ok 0) 2 (p ++ f) (lenN p) t id = Panic 204 /\
+    resolve_ref N (fun _ _ => Ok 0) (fun _ _ _ => Ok 0) 2 (p ++ f) (lenN p) t id = Err E_BOUNDS.
+Proof. exact resolve_prefix_overflow_refuted. Qed.
+Print Assumptions C17_resolve_overflow_refuted_before_fix.
 
 (** scan before the repair (file.rs:198-201): unshifted range end, lexer offset 0, unwrap. *)
 Theorem C17_scan_refuted_before_fix :
